@@ -54,10 +54,13 @@ def assigned(sa, sb, ka):
     if isinstance(sa, (abi.ReferenceTypeSpec, abi.TransactionTypeSpec)) or isinstance(sb, (abi.ReferenceTypeSpec, abi.TransactionTypeSpec)):
         return 0
     if ka not in _CVS:
-        ns = {"pt": pt, "ann": sa.annotation_type()}
-        exec("def g(*, output: ann):\n    return output.decode(pt.Bytes(''))\n", ns)
-        _CVS[ka] = pt.ABIReturnSubroutine(ns["g"])
-    forms = [lambda: _CVS[ka]()]
+        try:
+            ns = {"pt": pt, "ann": sa.annotation_type()}
+            exec("def g(*, output: ann):\n    return output.decode(pt.Bytes(''))\n", ns)
+            _CVS[ka] = pt.ABIReturnSubroutine(ns["g"])
+        except TypeError:              # tuples of more than five elements have no annotation: no computed value of that type
+            _CVS[ka] = None
+    forms = [lambda: _CVS[ka]()] if _CVS[ka] is not None else []
     if not isinstance(sb, abi.TupleTypeSpec):
         forms.append(sa.new_instance)
     for mk in forms:
